@@ -84,7 +84,7 @@ func C17(c *Ctx) int {
 	}
 	for i := 0; i < n; i++ {
 		ft := gen.Features{Xor: true, And: true, Or: i%3 == 0, Loop: i%4 == 1, Sub: i%5 == 0, EndInBranch: i%6 == 4,
-			MaxDepth: 3 + i%2, MaxSize: 5 + i%6, MaxBranch: 3}
+			MaxDepth: 3 + i%2, MaxSize: 5 + i%6, MaxBranch: 3, EmptyBranch: i%4 == 2, OlderVar: i%3 == 1, Throws: i%5 == 3}
 		ps = append(ps, gen.Random(fmt.Sprintf("c17_%d_%d", c.Seed, i), c.Seed*1000+int64(i), ft))
 	}
 	// several tokens of one instance at ONE gateway at the same time (the same conditions are
